@@ -73,7 +73,7 @@ ClockInit(C) == [tsc |-> 0, season |-> InitSeason(C), dap |-> 0, mature |-> FALS
 InSeason(C, c) ==
   /\ c.season >= 0
   /\ Plant(C, c.season) <= DateOf(C, c)
-  /\ Harv(C, c.season) >= DateOf(C, c)
+  /\ Harv(C, c.season) > DateOf(C, c)          \* the harvest date itself is no longer a growing-season day
   /\ ~c.mature /\ ~c.dead
 
 \* one whole time step.  Result: [gs, dap, mature, dead, harvestNow, next (clock), reset, jumped]
